@@ -80,7 +80,7 @@ Definition model_ok (c : ocase) : bool :=
 (* ---------- property monitor: the text of C19 on one exchange, independent of [handle], [respond],
    [call_of] and [client_decode] ---------------------------------------------------------------------- *)
 Definition num_bad (p : numparam) : bool :=
-  match p with PInt z => negb (in_int z) | PJunk => true | PEmpty => false end.
+  match p with PInt z => negb (in_int z) | PJunk | PEmpty => true end.
 Definition body_bad (b : jbody) : bool :=
   match b with JNone | JMalformed | JWrongType => true | _ => false end.
 
